@@ -103,6 +103,11 @@ def Kind.rank : Kind → Nat
 
 def opt (b : Bool) (k : Kind) : List Kind := if b then [k] else []
 
+/-- the projection step, when `--project_to_plane` is given -/
+def optPlane : Option Plane → List Kind
+  | some p => [.project p]
+  | none => []
+
 /-- `synced = (subcommand == "kitti" and ref_traj) or any((sync, align, correct_scale, align_origin))` -/
 def Flags.synced (f : Flags) : Bool :=
   (f.sub == .kitti && f.ref) || f.sync || f.align || f.correctScale || f.alignOrigin
@@ -135,14 +140,14 @@ def kinds (f : Flags) : Except Die (List Kind) :=
       opt (f.synced && f.alignOrigin) .alignOrigin ++
       opt (f.transformLeft || f.transformRight)
         (.transform (if f.transformLeft then .left else .right) f.invert f.transformRight f.propagate) ++
-      (match f.plane with | some p => [.project p] | none => []) ++
+      optPlane f.plane ++
       exports f)
 
 /-- steps applied to the reference -/
 def refKinds (f : Flags) : List Kind :=
   if f.ref then
     opt f.downsample .downsample ++ opt f.motionFilter .motionFilter ++
-    (match f.plane with | some p => [.project p] | none => []) ++ exports f
+    optPlane f.plane ++ exports f
   else []
 
 /-- a flag set without any processing option -/
